@@ -34,7 +34,10 @@ impl Record {
         };
 
         let quality_scores = if record.quality_scores().is_empty() {
-            QualityScores::default()
+            // Missing quality scores are stored as `0xff` for each base, which is what the reader
+            // maps back to an empty list.
+            const MISSING: u8 = 0xff;
+            QualityScores::from(vec![MISSING; record.sequence().len()])
         } else {
             if bam_flags.is_unmapped() {
                 cram_flags.insert(Flags::QUALITY_SCORES_ARE_STORED_AS_ARRAY);
